@@ -1347,6 +1347,7 @@ func runC05(tier, replay string) int {
 	if replay == "" && !cliOnly {
 		c05ConcurrentClock(r)
 		c05ConcurrentWitness(r)
+		c05ClockIO(r)
 	}
 	if (r.Thorough() && replay == "") || cliOnly {
 		for _, v := range []string{"cache-kept", "cache-deleted-too", "comment-first"} {
